@@ -75,7 +75,12 @@ def main(argv):
         return res.finish()
 
     # 4. correspondence + monitors (+ search for a failing input if anything above broke)
-    prop.run(res, tier, seed, search=bool(res.broken), have_drv=ok_drv)
+    try:
+        prop.run(res, tier, seed, search=bool(res.broken), have_drv=ok_drv)
+    except Exception as ex:  # a harness / driver that hangs or dies on this tree: the property is not shown to hold
+        import traceback
+        res.broken.append("the correspondence could not be run to its end on this tree (%s: %s)\n%s"
+                          % (type(ex).__name__, str(ex)[:400], traceback.format_exc()[-800:]))
     return res.finish()
 
 
